@@ -25,7 +25,8 @@ RULE = ("job = seed -> scenario (SSLv3..TLS1.2, every RSA-key-exchange "
         "server had consumed when it answered - is identical for all "
         "secretly-invalid classes; every class fails.  distinct = "
         "digest(scenario); non-trivial = >= 10 classes were delivered and "
-        "compared")
+        "compared"
+        ' Boundary ciphertexts (empty, 0, 1, n-1, n, all-ff, length-prefixed); publicly invalid ciphertexts take part in the uniformity comparison (only the consumed byte count may differ).')
 LEVEL_TEXT = ("Seeded search over scenarios, exhaustive over the defect "
               "class list per scenario; determinism turns 'identical "
               "behaviour' into a byte comparison of traces.  Only the wire "
